@@ -341,6 +341,7 @@ func (la *lockAnalysis) classify() {
 					}
 					if sc != nil && p.InUniverse(sc) && sc.Blocks != nil {
 						var inner []ssa.CallInstruction
+						async := false
 						for k, a := range ci.Call.Args {
 							if a != *op || k >= len(sc.Params) {
 								continue
@@ -350,7 +351,51 @@ func (la *lockAnalysis) classify() {
 								if c2, ok := in2.(ssa.CallInstruction); ok && !c2.Common().IsInvoke() && p.origin(c2.Common().Value) == ssa.Value(par) {
 									if _, isGo := c2.(*ssa.Go); !isGo {
 										inner = append(inner, c2)
+									} else {
+										async = true
 									}
+								}
+								// the helper runs its parameter in a goroutine of its own (`go func() { defer wg.Done();
+								// loop() }()`): the literal starts there with nothing held
+								mc, ok := in2.(*ssa.MakeClosure)
+								if !ok || mc.Referrers() == nil {
+									return
+								}
+								lf := mc.Fn.(*ssa.Function)
+								for bi, b := range mc.Bindings {
+									isPar := p.origin(b) == ssa.Value(par)
+									if al, ok := b.(*ssa.Alloc); ok && !isPar {
+										// a captured parameter is spilled to a cell initialised from it
+										n, all := 0, true
+										for _, st := range p.storesInto(al) {
+											n++
+											if st.Val != ssa.Value(par) {
+												all = false
+											}
+										}
+										isPar = n > 0 && all
+									}
+									if !isPar || bi >= len(lf.FreeVars) {
+										continue
+									}
+									fv := lf.FreeVars[bi]
+									goOnly := true
+									for _, r := range *mc.Referrers() {
+										if g, isGo := r.(*ssa.Go); !isGo || g.Call.Value != ssa.Value(mc) {
+											if _, isDbg := r.(*ssa.DebugRef); !isDbg {
+												goOnly = false
+											}
+										}
+									}
+									instrsOf(lf, func(in3 ssa.Instruction) {
+										if c3, ok := in3.(ssa.CallInstruction); ok && !c3.Common().IsInvoke() && (p.origin(c3.Common().Value) == ssa.Value(fv) || isLoadOf(c3.Common().Value, fv)) {
+											if goOnly {
+												async = true
+											} else {
+												inner = append(inner, c3)
+											}
+										}
+									})
 								}
 							})
 						}
@@ -358,6 +403,9 @@ func (la *lockAnalysis) classify() {
 							la.sites[fn] = append(la.sites[fn], inner...)
 							la.paramCalled[fn] = true
 							continue
+						}
+						if async {
+							continue // runs in a new goroutine: neither synchronous here nor internal
 						}
 					}
 					if _, dup := la.syncLit[fn]; !dup {
@@ -832,4 +880,10 @@ func poolNewTypes(p *Prog, poolAddr ssa.Value) []string {
 		}
 	}
 	return out
+}
+
+// isLoadOf: v is `*cell`.
+func isLoadOf(v, cell ssa.Value) bool {
+	u, ok := v.(*ssa.UnOp)
+	return ok && u.Op == token.MUL && u.X == cell
 }
